@@ -286,7 +286,7 @@ static void write_elf_text_and_data(
   int alignment)
 {
   const char *name = ".text";
-  uint32_t i;
+  uint64_t i;
 
   elf->text_addr = memory->low_address;
   string_table_append(elf, name);
